@@ -23,13 +23,20 @@ var Spec = engine.Spec{
 	Assume:    []string{"premise checked on every step: receiver and argument well-formed; a step whose argument was corrupted by an earlier aliasing effect is skipped and counted (that is C12's subject)"},
 }
 
-var purls = map[string]string{"a": "pkg:apk/w/a@1", "b": "pkg:deb/d/b@1", "c": "pkg:apk/w/c@2", "e": "pkg:deb/d/e@1"}
+// node payloads by identifier. a and d are the same software under two identifiers (equal hash and package URL), f and
+// b share the package URL only: an operation that recognises nodes by what they describe instead of by their identifier
+// meets both kinds of twin.
+var purls = map[string]string{"a": "pkg:apk/w/a@1", "b": "pkg:deb/d/b@1", "c": "pkg:apk/w/c@2", "e": "pkg:deb/d/e@1", "d": "pkg:apk/w/a@1", "f": "pkg:deb/d/b@1"}
+var hashes = map[string]string{"a": "aa11", "d": "aa11", "c": "cc33"}
 
 func build(s gen.ListSpec) *sbom.NodeList {
 	nl := s.Build()
 	for _, n := range nl.Nodes {
 		if p, ok := purls[n.Id]; ok {
 			n.Identifiers = map[int32]string{int32(sbom.SoftwareIdentifierType_PURL): p}
+		}
+		if h, ok := hashes[n.Id]; ok {
+			n.Hashes = map[int32]string{int32(sbom.HashAlgorithm_SHA256): h}
 		}
 	}
 	return nl
